@@ -510,7 +510,7 @@ func runSeq(c Case) (vkit.Info, error) {
 			if why == "" {
 				return info, fmt.Errorf("harness: fabricated %v is not stale against %v", h, S0)
 			}
-		case "eqver":
+		case "eqver", "grow":
 			if why != "" {
 				return info, fmt.Errorf("harness: fabricated %v is stale (%s)", h, why)
 			}
@@ -647,7 +647,27 @@ func runSeq(c Case) (vkit.Info, error) {
 			delete(M, k)
 			delete(lag, k)
 		}
-		if !hadOld || old.meta != cur.meta {
+		// "save to storage if meta is updated": a new id, a grown version / conf_ver, another number of peers.
+		// A meta that changes without any of these (fabricated "grow": a real store never does that) is
+		// not claimed to be persisted; the record may stay behind (storage lags for this id) or follow.
+		unclaimed := hadOld && old.meta != cur.meta && cur.ver == old.ver && cur.conf == old.conf &&
+			len(cur.ptr.GetPeers()) == len(old.ptr.GetPeers())
+		if unclaimed {
+			k := regionKey(h.ID)
+			cls.add("meta-changed-without-epoch-change")
+			switch {
+			case f.rsMode == rsOn:
+				lag[k] = "save"
+			case k == failedKey:
+				lag[k] = "save"
+				cls.add("write-failed-save")
+			case K1[k] == cur.meta:
+				M[k] = cur.meta
+				delete(lag, k)
+			default:
+				lag[k] = "save"
+			}
+		} else if !hadOld || old.meta != cur.meta {
 			k := regionKey(h.ID)
 			if f.rsMode == rsOn {
 				B[k] = cur.meta
